@@ -17,6 +17,10 @@
   satisfy `FloatOK` (ryu meets its specification; exactly readable), read from a &str, a slice or a
   stream; `atomRT_float_any` — the printed float is read back under ANY parser option set (with
   leading-digit symbols the token goes through the symbol scanner and `wholeNumber`).
+  Independent Emacs Lisp reader (LexprModel/Spec/ReaderElisp.lean, Proofs/SpecRTElisp.lean, SpecRTExec.lean):
+  `C02_independent_elisp` — for every value plain for the Emacs Lisp pair whose names are symbols of the
+  documented subset, `Spec.readElisp` reads the Emacs Lisp printer's text as `fold` of the value (Nil and
+  false become the empty list, true the symbol `t`, an empty byte vector the empty string); no nesting bound.
   Not covered by the theorem: digit-initial and `#`-initial names (not plain identifiers).
   Proved here: facts about `Compatible`, `fold` and `pof` over the whole (finite) option space and
   for all values.
@@ -25,6 +29,7 @@ import LexprModel.Spec.Dialect
 import LexprModel.Proofs.DialectStructRT
 import LexprModel.Proofs.Builder
 import LexprModel.Proofs.FullRT
+import LexprModel.Proofs.SpecRTExec
 namespace Lexpr
 namespace Spec
 
@@ -110,4 +115,14 @@ theorem C02_every_option_set (p : Print.Options) (r : Parse.Options) :
   ⟨Print.builder_reachable p, Parse.builder_reachable r⟩
 
 end Spec
+/-- **C02_independent_elisp_reader**: the Emacs Lisp printer's text is readable by an independent reader of
+    the documented Emacs Lisp subset as the folding of the value (restates `Lexpr.C02_independent_elisp`). -/
+theorem C02_independent_elisp_reader (cfg : Parse.Cfg) (ho : cfg.opts = Parse.Options.elisp)
+    (ryu : Nat → List UInt8) (v : Value)
+    (h : FullRT.AllPlainForF Print.Options.elisp cfg ryu v)
+    (hid : FullRT.AllLeaves (SpecRT.El.ElNames Spec.unicodeAlphabetic) v) :
+    Spec.readElisp (Print.text Print.Options.elisp ryu v) =
+      some (Spec.fold Print.Options.elisp Parse.Options.elisp v) :=
+  C02_independent_elisp cfg ho ryu v h hid
+
 end Lexpr
